@@ -13,6 +13,7 @@ def parseOp (s : String) : Option Op :=
   | ['d'] => some .drop
   | ['c'] => some .cleanup
   | ['s'] => some .shutdown
+  | ['k'] => some .sweep
   | 'g' :: rest => (String.ofList rest).toNat?.map Op.get
   | _ => none
 
